@@ -70,7 +70,7 @@ func checkC16(ci any, info *CaseInfo) string {
 			return "" // e.g. non-finite float refused by JSON: nothing to inject
 		}
 		W := dry.writes
-		info.NonTrivial = W > 1 && len(c.Evs) >= 3
+		info.NonTrivial = W > 1
 		for k := 0; k < W; k++ {
 			info.Class("fault_positions")
 			fw := &failWriter{k: k}
@@ -112,7 +112,7 @@ func checkC16(ci any, info *CaseInfo) string {
 			return fmt.Sprintf("%s parser panics on %x: %v", c.Format, trunc(c.Doc), o.Panic)
 		}
 		N := dry.N
-		info.NonTrivial = N >= 3
+		info.NonTrivial = N >= 2
 		for k := 0; k < N; k++ {
 			info.Class("fault_positions")
 			rec := &model.Recorder{Hook: failAt(k)}
@@ -145,7 +145,7 @@ func checkC16(ci any, info *CaseInfo) string {
 			return ""
 		}
 		N := dry.N
-		info.NonTrivial = N >= 3
+		info.NonTrivial = N >= 2
 		for k := 0; k < N; k++ {
 			info.Class("fault_positions")
 			rec := &model.Recorder{Hook: failAt(k)}
@@ -170,7 +170,7 @@ func checkC16(ci any, info *CaseInfo) string {
 			return fmt.Sprintf("adapter dry run fails: %v", o)
 		}
 		N := dry.N
-		info.NonTrivial = N >= 3
+		info.NonTrivial = N >= 2
 		for k := 0; k < N; k++ {
 			info.Class("fault_positions")
 			rec := &model.Recorder{Hook: failAt(k)}
@@ -276,7 +276,7 @@ var plainKinds = []string{model.KNil, model.KBool, model.KStr, model.KStrRef, mo
 func init() {
 	register(&Property{
 		ID:    "C16",
-		Rule:  "per generated case EVERY fault position is tried: encoders (json, cborl, ubjson) with an io.Writer failing from the k-th Write on, for every k < number of writes of the dry run; parsers ({Parse, ParseReader over chunks, pull decoder}), Fold over generated Go values and the extended-event adapters with a visitor returning a sentinel at event k, for every k < number of events; oracle = some call returns a non-nil error (encoders) / the outermost call returns an error that is the sentinel (errors.Is) and no event follows the failing one; deterministic part: every extended event (empty and non-empty) and every scalar kind through every encoder and the adapters; non-trivial = more than one fault position and a stream of >= 3 events; distinct by case hash; the class counter fault_positions counts the injected faults",
+		Rule:  "per generated case EVERY fault position is tried: encoders (json, cborl, ubjson) with an io.Writer failing from the k-th Write on, for every k < number of writes of the dry run; parsers ({Parse, ParseReader over chunks, pull decoder}), Fold over generated Go values and the extended-event adapters with a visitor returning a sentinel at event k, for every k < number of events; oracle = some call returns a non-nil error (encoders) / the outermost call returns an error that is the sentinel (errors.Is) and no event follows the failing one; deterministic part: every extended event (empty and non-empty) and every scalar kind through every encoder and the adapters; non-trivial = more than one fault position in the case; distinct by case hash; the class counter fault_positions counts the injected faults",
 		New:   func() any { return &C16Case{} },
 		Draw:  drawC16,
 		Check: checkC16,
